@@ -118,6 +118,9 @@ def c03(tier, seed):
            "2:i1|i1", "2:p|a", "2:o1,o2|r1,r2", "3:v|r2,r3"]
     sc3 = ["2:i1|r1|v", "2:a|p|r1", "2:r1|r1|i1", "2:v|a,r20|r2", "2:i1|r1|r1", "2:f|r1|i1"]
     scen = [{"scenario": s, "bound": 3 if len(s) < 9 else 2} for s in sc2] + [{"scenario": s, "max": 3000 if quick else 100000, "bound": 1} for s in sc3]
+    # dispatcher only: calls on other events (each thread inserts its own new key into the shared map) racing calls on event 1
+    for i, s in enumerate(["2:x,a|x,r1", "2:x,y,v|x,z,i1", "1:x,z|v,x|r1,x", "2:i1,x|x,y,r2"]):
+        scen.append({"scenario": s, "bound": 2 if s.count("|") == 1 else 1, "max": 4000 if quick else 100000, "runner": 1 + i % 2})
     models = [{"module": "ConcCLMC", "tag": "2threads", "cfg": cc_cfg([1, 2], "ScenSet")},
               # the SpinLock policy mutex refines the `mtx` abstraction the other models use
               {"module": "SpinLock", "tag": "spinlock", "cfg": sl_cfg([1, 2, 3], 2 if quick else 3)}]
